@@ -9,7 +9,7 @@ def hx(b):
 def unhx(s):
     return b"" if s == "-" else bytes.fromhex(s)
 
-def mkcase(steps, pw=None, app=(), tbl=None, default=None, conns=1, trace=True, handler=None):
+def mkcase(steps, pw=None, app=(), tbl=None, default=None, conns=1, trace=True, handler=None, tls=None, rule=None):
     f = ["pw=" + ("-" if pw is None else "h" + hx(pw)),
          "app=" + (",".join(hx(a) for a in app) if app else "-"),
          "tbl=" + (";".join("%s=%s" % (k, v) for k, v in tbl.items()) if tbl else "-"),
@@ -17,6 +17,10 @@ def mkcase(steps, pw=None, app=(), tbl=None, default=None, conns=1, trace=True, 
          "steps=" + (";".join("%d:%s" % (c, op) for c, op in steps) if steps else "-")]
     if handler:
         f.insert(0, "handler=" + handler)
+    if tls:
+        f.append("tls=" + ",".join(tls))          # per connection: p | n | c<hex common name>
+    if rule is not None:
+        f.append("rule=" + hx(rule))
     return " ".join(f)
 
 class Obs:
@@ -62,7 +66,7 @@ def norm_events(evs, is_model, model_evs=None):
     """project an event list onto what model and implementation are compared on"""
     out = []
     for e in evs:
-        if e in ("Q", "REG", "DEREG") or e.startswith("!") or e.startswith("I:") or e.startswith("T:"):
+        if e in ("Q", "REG", "DEREG", "STOP-RET") or e.startswith("!") or e.startswith("I:") or e.startswith("T:"):
             if e.startswith("!"):
                 out.append(e)
             continue
